@@ -700,8 +700,17 @@ func (e *CoreExtension) functionRandom(args ...interface{}) (interface{}, error)
 		return nil, errors.New("max must be greater than min")
 	}
 
-	// Generate a random number in the range [min, max]
-	return min + rand.Intn(max-min+1), nil
+	// Generate a random number in the range [min, max] (the width of the range
+	// may not fit an int: max - min + 1 wraps around for bounds far apart)
+	if span := max - min + 1; span > 0 {
+		return min + rand.Intn(span), nil
+	}
+	span := uint64(max) - uint64(min) + 1
+	if span == 0 {
+		// the whole range of int
+		return int(rand.Uint64()), nil
+	}
+	return min + int(rand.Uint64()%span), nil
 }
 
 func (e *CoreExtension) functionMax(args ...interface{}) (interface{}, error) {
